@@ -201,6 +201,15 @@ impl ResourcePool {
                         fractions: 0,
                     })
                 }
+            } else if indices.iter().any(|i| i.group_idx as usize == group_idx)
+                && (0..pool.indices.len()).any(|g| {
+                    group_set.is_none_or(|gs| gs.contains(&g))
+                        && !indices.iter().any(|i| i.group_idx as usize == g)
+                        && (!pool.indices[g].is_empty()
+                            || pool.fractions[g].values().any(|f| *f >= fractions))
+                })
+            {
+                // Leave the fractional remainder for a group that was not touched yet
             } else if let Some((index, f)) =
                 Self::best_fraction_match(&mut pool.fractions[group_idx], fractions)
             {
